@@ -133,7 +133,7 @@ Impact3 == {"C","I","A","MC","MI","MA","CR","IR","AR"}
 MonoSlots(h, m) ==
    IF h.ver = "4" THEN {1}
    ELSE IF h.ver = "2" THEN (IF m \in SeqToSet(Mand2) THEN {1,2} ELSE IF m \in SeqToSet(Temporal2) THEN {2} ELSE {})
-   ELSE LET env == IF h.minor = 0 /\ m \in Impact3 THEN {} ELSE {3} IN
+   ELSE LET env == IF h.minor = 0 /\ m \in Impact3 /\ Mode # "specall" THEN {} ELSE {3} IN
         IF m \in SeqToSet(Mand3) THEN {1,2} \cup env
         ELSE IF m \in SeqToSet(Temporal3) THEN {2} \cup env
         ELSE env
@@ -149,22 +149,30 @@ StepPairsOf(h, base, dd) ==
 \* context of a dimension: first option of every other inner dimension, over the row's outer part
 CtxOf(h, og, dd) == MergeSeq([e \in 1..Len(h.inner) |-> IF e = dd THEN EmptyFn ELSE h.inner[e].opts[1]], 1) @@ og
 StepPairs(h, og) == UNION { StepPairsOf(h, CtxOf(h, og, dd), dd) : dd \in 1..Len(h.inner) }
-Val(row, h, og, str, j, k) == IF Mode = "spec" THEN ScoresOf(h.ver, h.minor, InnerAsg(h, str, j) @@ og)[k]
-                              ELSE Slot(row, h, j, k)
+SpecMode == Mode \in {"spec", "specall"}
 MonoRow(row, h) ==
-   LET og == OuterAsg(h, row.o)  str == Strides(h.inner)  n == Size(h.inner)  rad == Radix(h.inner)
-       pairs == StepPairs(h, og)
-       bad == {<<j, pr>> \in (0..(n-1)) \X pairs :
-                 /\ ((j \div str[pr[1]]) % rad[pr[1]]) + 1 = pr[2]
-                 /\ LET j2 == j + (pr[3] - pr[2]) * str[pr[1]] IN
-                    \E k \in pr[4] : k <= h.slots /\ Val(row,h,og,str,j,k) >= 0 /\ Val(row,h,og,str,j2,k) >= 0
-                                     /\ Val(row,h,og,str,j,k) > Val(row,h,og,str,j2,k)}
-   IN IF bad = {} THEN "ok"
-      ELSE LET b == CHOOSE x \in bad : TRUE
+   LET og == TLCEval(OuterAsg(h, row.o))  str == TLCEval(Strides(h.inner))  n == Size(h.inner)  rad == TLCEval(Radix(h.inner))
+       own == TLCEval(Owner(h))  tab == TLCEval(OptFull(h))  ctx == TLCEval(Full(h.ver, og))
+       \* in the design-level modes the compared values are the specification's own scores
+       vals == IF SpecMode THEN TLCEval([j \in 0..(n-1) |-> TLCEval(ScoresOfFull(h.ver, h.minor, EntryFull(h, own, tab, ctx, str, j)))]) ELSE <<>>
+       pairs == TLCEval(StepPairs(h, og))
+       V(j, k) == IF SpecMode THEN vals[j][k] ELSE row.obs[j * h.slots + k]
+       \* entries whose digit in dimension pr[1] is pr[2]:  j = hi * (rad*str) + (pr[2]-1) * str + lo
+       J(pr, hi, lo) == hi * rad[pr[1]] * str[pr[1]] + (pr[2]-1) * str[pr[1]] + lo
+       Lowers(pr, j) == LET j2 == j + (pr[3] - pr[2]) * str[pr[1]] IN
+                        \E k \in pr[4] : k <= h.slots /\ V(j,k) >= 0 /\ V(j2,k) >= 0 /\ V(j,k) > V(j2,k)
+       His(pr) == 0..((n \div (rad[pr[1]] * str[pr[1]])) - 1)
+       Los(pr) == 0..(str[pr[1]] - 1)
+       anyBad == \E pr \in pairs : \E hi \in His(pr) : \E lo \in Los(pr) : Lowers(pr, J(pr, hi, lo))
+   IN IF ~Disjoint(h, og) THEN "shape-disjoint" ELSE IF ~anyBad THEN "ok"
+      ELSE LET bad == {<<j, pr>> \in (0..(n-1)) \X pairs :
+                         ((j \div str[pr[1]]) % rad[pr[1]]) + 1 = pr[2] /\ Lowers(pr, j)}
+               b == CHOOSE x \in bad : TRUE
                j2 == b[1] + (b[2][3] - b[2][2]) * str[b[2][1]]
            IN "mono " \o VectorOf(h, InnerAsg(h, str, b[1]) @@ og) \o " -> " \o VectorOf(h, InnerAsg(h, str, j2) @@ og)
-              \o " lowers " \o ToString([k \in 1..h.slots |-> Val(row,h,og,str,b[1],k)]) \o " to "
-              \o ToString([k \in 1..h.slots |-> Val(row,h,og,str,j2,k)]) \o " nbad=" \o ToString(Cardinality(bad))
+              \o " lowers " \o ToString([k \in 1..h.slots |-> V(b[1],k)]) \o " to "
+              \o ToString([k \in 1..h.slots |-> V(j2,k)]) \o " nbad=" \o ToString(Cardinality(bad))
+              \o " metrics=" \o ToString({h.inner[x[2][1]].name : x \in bad})
 NPairs(row, h) == LET og == OuterAsg(h, row.o) IN
    LET pairs == StepPairs(h, og)  rad == Radix(h.inner)  n == Size(h.inner) IN
    \* number of compared (entry, step, slot) triples in this row
@@ -179,7 +187,7 @@ RowMacros(row, h) == LET og == TLCEval(OuterAsg(h, row.o))  str == TLCEval(Strid
 
 Verdict(row) ==
    LET h == Tables[row.t] IN
-   IF Len(row.obs) # Size(h.inner) * h.slots /\ Mode # "spec" THEN "shape"
+   IF Len(row.obs) # Size(h.inner) * h.slots /\ ~SpecMode THEN "shape"
    ELSE IF ~SamplesOK(row, h) THEN "samples"
    ELSE IF Mode = "oracle" THEN OracleRow(row, h)
    ELSE MonoRow(row, h)
